@@ -51,10 +51,12 @@ type pview struct {
 	utxo  refchain.UTXO
 }
 
+// finding: class = head [/fam:<generator family of the first tx>] [/detail]
 type finding struct {
-	class string
-	what  string
-	txs   []*pent
+	head   string
+	detail string
+	what   string
+	txs    []*pent
 }
 
 func hashOf(b [32]byte) Hash { return Hash(b) }
@@ -116,7 +118,11 @@ func (v *pview) descendants(e *pent) []*pent {
 func (h *hist) walk(full bool) (*pview, []finding) {
 	var fs []finding
 	add := func(class, what string, txs ...*pent) {
-		fs = append(fs, finding{class, what, txs})
+		head, detail := class, ""
+		if i := strings.IndexByte(class, '/'); i >= 0 {
+			head, detail = class[:i], class[i+1:]
+		}
+		fs = append(fs, finding{head, detail, what, txs})
 	}
 	v := &pview{byID: map[Hash]*pent{}, spent: map[OP][]*pent{}}
 	v.utxo = h.node.DumpUTXO()
